@@ -2957,6 +2957,12 @@ func translatePackage(repo string, g group, w *strings.Builder, untranslated *[]
 					val := t.expr(vs.Values[i])
 					fmt.Fprintf(w, "/-- translated from `var %s` (package level; no translated function assigns it) -/\ndef %s : %s := %s\n\n", nm.Name, mangle(nm.Name), ty, val)
 					t.pkgVars[obj] = mangle(nm.Name)
+					// inside `def T.name`, a bare `name` would resolve to the method itself
+					for _, m := range metas {
+						if strings.HasSuffix(m.goName, "."+nm.Name) {
+							t.pkgVars[obj] = "_root_.Gotlcp.Src." + ns + "." + mangle(nm.Name)
+						}
+					}
 				}()
 			}
 		}
